@@ -19,3 +19,177 @@ def canary():
 
 
 R.canaries.append(("haplotag.py:canary#supplementary-always-ignored", canary))
+
+
+# ---------------------------------------------------------------------------------------------------------------------------------
+# Loop-body contract for run_haplotag's pass over one fetched region (loop 2 of run_haplotag; C10: every fetched alignment is written exactly once,
+# in order, identical except for HP/PS/PC; alignments that are ignored or cannot be assigned lose stale HP/PS/PC).
+# `fetched` is the sequence bam_reader.fetch(...) yields (ghost name).  An alignment is an object with its flags and its tag map; set_tag(t, None)
+# removes the tag, set_tag(t, v) sets it; nothing else of an alignment is ever assigned (frame by construction of the model).  The writer keeps the
+# sequence of alignments written; writing freezes the alignment (modifying it afterwards would not reach the output).  The haplotag-list writer is a
+# line-sequence file.  attempt_add_phase_information contains try/except (outside the supported subset): used through an ASSUMED contract.
+import z3  # noqa: E402
+
+R.declare_class("Alignment", {"is_unmapped": BOOL, "is_secondary": BOOL, "is_supplementary": BOOL, "tags": DICT(INT, INT), "frozen": BOOL, "query_name": INT})
+R.declare_class("BamWriter", {"written": LIST(REF("Alignment"))})
+R.declare_class("ListFile", {"lines": LIST(INT)})
+ROW4 = z3.Function("HAPLOTAG_ROW", *([z3.IntSort()] * 5))
+
+
+class AlignmentModel:
+    @staticmethod
+    def method(eng, st, obj, name, args, kwargs):
+        if name == "set_tag":
+            tag = args[0]
+            v = args[1] if len(args) > 1 else kwargs.get("value")
+            eng.oblige(st, "assert", z3.Not(eng.load_field(st, obj, "frozen")), "alignment-not-modified-after-write")
+            t = eng.load_field(st, obj, "tags")
+            k = eng.key_of(tag)
+            if v is NONE:
+                eng.store_field(st, obj, "tags", VDict(INT, INT, z3.Store(t.dom, k, False), t.map))
+            else:
+                eng.store_field(st, obj, "tags", VDict(INT, INT, z3.Store(t.dom, k, True), z3.Store(t.map, k, to_z3(v))))
+            return NONE
+        return NotImplemented
+
+
+class BamWriterModel:
+    @staticmethod
+    def method(eng, st, obj, name, args, kwargs):
+        if name == "write" and len(args) == 1:
+            w = eng.load_field(st, obj, "written")
+            eng.store_field(st, obj, "written", eng.list_append(w, args[0]))
+            eng.store_field(st, args[0], "frozen", z3.BoolVal(True))
+            return NONE
+        return NotImplemented
+
+
+class ListFileModel:
+    @staticmethod
+    def print(eng, st, obj, args, kwargs):
+        zs = [eng.key_of(a) if isinstance(a, VList) else to_z3(a) for a in args]
+        if len(zs) != 4:
+            raise Unsupported("haplotag list row with %d fields" % len(zs))
+        lines = eng.load_field(st, obj, "lines")
+        eng.store_field(st, obj, "lines", eng.list_append(lines, ROW4(*zs)))
+        return NONE
+
+
+class FetchModel(VModel):
+    """bam_reader: fetch(...) yields the ghost sequence `fetched`"""
+
+    def sym_call_method(self, eng, st, name, args, kwargs, node=None):
+        if name == "fetch":
+            return st.env["fetched"]
+        raise Unsupported("bam_reader.%s" % name)
+
+    def havoc(self, eng, st, name):
+        return self
+
+
+class Opaque(VModel):
+    def havoc(self, eng, st, name):
+        return self
+
+    def sym_is_none(self):
+        return self.none if hasattr(self, "none") else z3.BoolVal(False)
+
+
+class MaybeTable(Opaque):
+    """variant_table: only `is None` is used in the loop"""
+
+    def __init__(self):
+        self.none = z3.Bool("variant_table.is_none")
+
+
+R.object_models.update({"Alignment": AlignmentModel, "BamWriter": BamWriterModel, "ListFile": ListFileModel})
+
+
+@R.spec
+def tag(eng, st, s):
+    return eng.key_of(s)
+
+
+@R.spec
+def no_phase_tags(eng, st, a):
+    t = eng.load_field_raw(st, a, "tags")
+    return z3.And(*[z3.Not(t.dom[eng.key_of(eng.str_const(x))]) for x in ("HP", "PC", "PS")])
+
+
+@R.spec
+def other_tags_kept(eng, st, a):
+    t, t0 = eng.load_field_raw(st, a, "tags"), eng.load_field_raw(st.old, a, "tags")
+    k = z3.Int(fresh_name("k"))
+    ks = [eng.key_of(eng.str_const(x)) for x in ("HP", "PC", "PS")]
+    return z3.ForAll([k], z3.Implies(z3.And(*[k != x for x in ks]), z3.And(t.dom[k] == t0.dom[k], t.map[k] == t0.map[k])))
+
+
+@R.spec
+def untouched(eng, st, a):
+    t, t0 = eng.load_field_raw(st, a, "tags"), eng.load_field_raw(st.old, a, "tags")
+    return z3.And(t.dom == t0.dom, t.map == t0.map, z3.Not(eng.load_field_raw(st, a, "frozen")))
+
+
+_ASSIGNABLE = z3.Function("ASSIGNABLE", z3.IntSort(), z3.BoolSort())
+
+
+@R.spec
+def ASSIGNABLE(eng, st, a):
+    """ghost: attempt_add_phase_information finds a haplotype for this alignment (directly or through its linked-read cloud)"""
+    return _ASSIGNABLE(to_z3(a))
+
+
+@R.spec
+def only_tags_of(eng, st, a):
+    """frame: no other alignment's tags change"""
+    A = z3.ArraySort
+    dom, dom0 = eng.heap_arr(st, "Alignment.tags#dom", A(z3.IntSort(), z3.BoolSort())), eng.heap_arr(st.old, "Alignment.tags#dom", A(z3.IntSort(), z3.BoolSort()))
+    mp, mp0 = eng.heap_arr(st, "Alignment.tags#map", A(z3.IntSort(), z3.IntSort())), eng.heap_arr(st.old, "Alignment.tags#map", A(z3.IntSort(), z3.IntSort()))
+    n = z3.Int(fresh_name("n"))
+    return z3.ForAll([n], z3.Implies(n != to_z3(a), z3.And(dom[n] == dom0[n], mp[n] == mp0[n])))
+
+
+R.contract("attempt_add_phase_information", assumed=True,
+           params={"alignment": REF("Alignment"), "read_to_haplotype": INT, "bxtag_to_haplotype": INT, "linked_read_cutoff": INT, "ignore_linked_read": BOOL},
+           returns=TUPLE(INT, INT, INT),
+           requires=[("not-written-yet", "not alignment.frozen")],
+           ensures=[("flag", "result[0] == ite(ASSIGNABLE(alignment), 1, 0)"),
+                    ("untagged-means-untouched", "implies(result[0] == 0, forall(k, (k in alignment.tags) == old(k in alignment.tags)) and forall(k, implies(k in alignment.tags, alignment.tags[k] == old(alignment.tags[k]))))"),
+                    ("only-phase-tags-set", "forall(k, implies(k != tag('HP') and k != tag('PC') and k != tag('PS'), (k in alignment.tags) == old(k in alignment.tags) and alignment.tags[k] == old(alignment.tags[k])))"),
+                    ("still-writable", "not alignment.frozen"), ("frame", "only_tags_of(alignment)")],
+           modifies=["Alignment.tags"], props=["C10"])
+
+_FETCH_VALID = ("forall(k, implies(0 <= k and k < len(fetched), fetched[k] is not None)) and "
+                "forall(k, j, implies(0 <= k and k < j and j < len(fetched), fetched[k] is not fetched[j]))")
+_WRITTEN = "len(bam_writer.written) == old(len(bam_writer.written)) + {i} and forall(k, implies(0 <= k and k < {i}, bam_writer.written[old(len(bam_writer.written)) + k] is fetched[k]))"
+_DONE = ("forall(k, implies(0 <= k and k < {i}, other_tags_kept(fetched[k]) and "
+         "implies(variant_table is None or old(fetched[k].is_unmapped) or old(fetched[k].is_secondary) or (old(fetched[k].is_supplementary) and not tag_supplementary) "
+         "or not ASSIGNABLE(fetched[k]), no_phase_tags(fetched[k]))))")
+_REST = "forall(k, implies({i} <= k and k < len(fetched), untouched(fetched[k])))"
+
+R.contract(
+    "run_haplotag#region-pass",
+    params={"fetched": LIST(REF("Alignment")), "bam_reader": FetchModel(), "chrom": INT, "start": INT, "end": INT, "variant_table": MaybeTable(), "tag_supplementary": BOOL,
+            "read_to_haplotype": INT, "BX_tag_to_haplotype": INT, "linked_read_distance_cutoff": INT, "ignore_linked_read": BOOL, "bam_writer": REF("BamWriter"),
+            "haplotag_writer": REF("ListFile"), "n_alignments": INT, "n_tagged": INT},
+    requires=[("fetched-valid", _FETCH_VALID), ("nothing-written-yet", "forall(k, implies(0 <= k and k < len(fetched), not fetched[k].frozen))")],
+    ensures=[("every-fetched-alignment-written-once-in-order", _WRITTEN.format(i="len(fetched)")),
+             ("only-phase-tags-change-and-ignored-or-unassignable-alignments-carry-none", _DONE.format(i="len(fetched)")),
+             ("earlier-output-kept", "forall(k, implies(0 <= k and k < old(len(bam_writer.written)), bam_writer.written[k] is old(bam_writer.written[k])))")],
+    modifies=["Alignment.tags", "Alignment.frozen", "BamWriter.written", "ListFile.lines"],
+    locals={"alignment": REF("Alignment"), "haplotype_name": INT, "phaseset": INT, "is_tagged": INT},
+    loops={2: dict(index="ai", modifies=["Alignment.tags", "Alignment.frozen", "BamWriter.written", "ListFile.lines"], preserves=["bam_writer"],
+                   inv=[("written", _WRITTEN.format(i="ai")), ("done", _DONE.format(i="ai")), ("rest-untouched", _REST.format(i="ai")),
+                        ("earlier", "forall(k, implies(0 <= k and k < old(len(bam_writer.written)), bam_writer.written[k] is old(bam_writer.written[k])))")])},
+    extra={"target": "run_haplotag", "loop_slice": 2, "nullable": {"haplotag_writer": True}},
+    props=["C10"])
+
+
+def canary_region():
+    import copy
+    c = copy.copy(R.contracts["run_haplotag#region-pass"])
+    c.ensures = [("wrong", "forall(k, implies(0 <= k and k < len(fetched), no_phase_tags(fetched[k])))")]      # "nothing is ever tagged"
+    return c
+
+
+R.canaries.append(("haplotag.py:canary#region-pass-tags-nothing", canary_region))
